@@ -1,0 +1,22 @@
+//go:build verif
+
+package layout
+
+import (
+	pr "github.com/benoitkugler/webrender/css/properties"
+	bo "github.com/benoitkugler/webrender/html/boxes"
+)
+
+// Read-only wrappers used by the /verif C13 check (table grid geometry).
+// Not compiled without the `verif` build tag.
+
+// VerifC13ResolveTable resolves the percentages of a table box against a
+// containing block of the given width, as tableWrapperWidth does before
+// choosing the layout algorithm.
+func VerifC13ResolveTable(table bo.Box, cbWidth pr.Float) {
+	resolvePercentages(table, bo.MaybePoint{cbWidth, pr.AutoF}, 0)
+}
+
+// VerifC13FixedTableLayout runs fixedTableLayout on a table wrapper box whose
+// table has a resolved (non auto) width.
+func VerifC13FixedTableLayout(wrapper bo.Box) { fixedTableLayout(wrapper.Box()) }
